@@ -112,8 +112,8 @@ def natStr (n : Nat) : Bytes := strBytes (toString n)
 
 /-- `json.Marshal(options)` for a plain-ASCII name -/
 def encodeOpts (name : Bytes) (c : Cfg) : Bytes :=
-  strBytes "{\"name\":\"" ++ name ++ strBytes "\",\"distance_method\":" ++ natStr c.metric ++
-  strBytes ",\"dimension_count\":" ++ natStr c.dim ++ strBytes ",\"quantization\":" ++ natStr c.quant ++ strBytes "}"
+  b!"{\"name\":\"" ++ name ++ b!"\",\"distance_method\":" ++ natStr c.metric ++
+  b!",\"dimension_count\":" ++ natStr c.dim ++ b!",\"quantization\":" ++ natStr c.quant ++ b!"}"
 
 def findAfter (key : Bytes) : Bytes → Option Bytes
   | [] => none
@@ -126,8 +126,8 @@ def leadingNat (b : Bytes) : Option Nat :=
 /-- the three integer fields of the options record (`json.Unmarshal` is trusted; this is the
     field extraction the driver needs) -/
 def decodeOpts (b : Bytes) : Option Cfg :=
-  match findAfter (strBytes "\"distance_method\":") b, findAfter (strBytes "\"dimension_count\":") b,
-        findAfter (strBytes "\"quantization\":") b with
+  match findAfter (b!"\"distance_method\":") b, findAfter (b!"\"dimension_count\":") b,
+        findAfter (b!"\"quantization\":") b with
   | some m, some d, some q =>
     match leadingNat m, leadingNat d, leadingNat q with
     | some m, some d, some q => some { metric := m, dim := d, quant := q }
